@@ -311,7 +311,7 @@ func Lookup(patterns []*Pattern, rawHost, path string) Outcome {
 			out.Pattern, out.Params, out.Tsr, out.ViaHost = r.P.S, r.Params, false, viaHost
 			return true
 		}
-		if path != "/" && path != "" {
+		if path != "/" { // the empty path of an absolute-form target without a path included: adding the slash gives "/"
 			var r2 *Match
 			var un2 bool
 			if strings.HasSuffix(path, "/") {
